@@ -89,6 +89,20 @@ def run(ctx):
         blk = split_blocks(lines)[0]
         ctx.sample({"kind": "concurrent-history-prefix", "events": [json.loads(x) for x in blk[:12]]})
     validate_traces(ctx, "QueueTrace", lines, "C20:stress:not-linearizable", "concurrent history of util.Queue")
+    # 3b. V with forced orderings: Enqueue against Dequeue / DequeueAll / Requeue, every pair of statement labels of Queue.tla
+    #     (yield points in util/queue.go) in both orders, queue holding 0..2 chunks, each run ending with a drain
+    ftrace = os.path.join(ctx.tmp, "c20forced.ndjson")
+    res = ctx.run_harness("c20forced", args=["-out", ftrace, "-reps", "3" if thorough else "1"], timeout=1800)
+    for rr in res:
+        ctx.count()
+        if not rr["ok"]:
+            ctx.violation(rr["sig"], rr["detail"], {"kind": "forced"})
+        else:
+            ctx.notes["forced_orderings"] = {"histories": rr.get("histories"), "runs_in_which_the_order_was_forced": rr.get("forced")}
+    flines = open(ftrace).read().splitlines()
+    for b in split_blocks(flines):
+        ctx.nontriv("forced:" + str(hash("".join(b))))
+    validate_traces(ctx, "QueueTrace", flines, "C20:forced:not-linearizable", "forced ordering of Enqueue against a consumer call on util.Queue")
     # 4. the queue as the channel uses it: what the in-channel login read is put back IN FRONT of what the read loop queued
     #    meanwhile (Requeue at the end of Channel.Open); admitted logins whose device goes on talking after the first prompt
     logins = []
